@@ -1392,6 +1392,9 @@ func (a *Act) fnNames(phiEnv map[ssa.Value]string, results []string, st *State) 
 				if al, ok := in.(*ssa.Alloc); ok && al.Comment == name {
 					if t, bound := a.env[al]; bound {
 						et := al.Type().Underlying().(*types.Pointer).Elem()
+						if cv, ok := a.g.constCell[t]; ok {
+							return tv{term: cv, typ: et}, true
+						}
 						return e.fromAddr(et, fmt.Sprintf("(pref %s)", t), fmt.Sprintf("(poff %s)", t)), true
 					}
 				}
@@ -1537,6 +1540,9 @@ func (cs *callSite) env(st *State, old *State) *evalEnv {
 			if fv.Name() == name {
 				t := cs.args[np+sig.params.Len()+i]
 				et := fv.Type().Underlying().(*types.Pointer).Elem()
+				if cv, ok := g.constCell[t]; ok {
+					return tv{term: cv, typ: et}, true
+				}
 				return e.fromAddr(et, fmt.Sprintf("(pref %s)", t), fmt.Sprintf("(poff %s)", t)), true
 			}
 		}
